@@ -31,7 +31,7 @@ func zzFillF(st store.Store, tag string, npat int) *zzSrc {
 	}
 	var base int
 	if zzNarrowBase {
-		base = []int{-8000, -1, 0, 31, 4095}[zzvChoose(tag+".base", 5)]
+		base = []int{-1, 4095}[zzvChoose(tag+".base", 2)]
 	} else {
 		base = zzvIntIn(tag+".base", -8000, 8000)
 	}
@@ -54,12 +54,16 @@ func zzHoldsBitExact(st store.Store, g *zzSrc) bool {
 	return zzvAnd(ok, n == len(g.idx))
 }
 
-func zzC09Source(srcKind int, mk int) (*DDSketch, *zzSrc, *zzSrc) {
+func zzC09Source(srcKind, dstKind int, mk int) (*DDSketch, *zzSrc, *zzSrc) {
 	zzvExactFloatsOnly()
 	zzvMapOrders(2)
-	zzNarrowBase = srcKind == 2
+	zzNarrowBase = srcKind == 2 || dstKind == 2
 	s := NewDDSketch(zzRealMapping(mk), zzProvider(srcKind)(), zzProvider(srcKind)())
-	gp := zzFillF(s.positiveValueStore, "pos", 4)
+	npat := 4
+	if zzNarrowBase {
+		npat = 3
+	}
+	gp := zzFillF(s.positiveValueStore, "pos", npat)
 	gn := zzFillF(s.negativeValueStore, "neg", 2)
 	s.zeroCount = zzvFloat64("zero")
 	zzvAssume(zzvAnd(s.zeroCount >= 0, s.zeroCount < math.Inf(1)))
@@ -69,7 +73,7 @@ func zzC09Source(srcKind int, mk int) (*DDSketch, *zzSrc, *zzSrc) {
 // (a) in-memory message -> rebuilt sketch with any store kind: bit-for-bit
 func zzC09Rebuild(srcKind, dstKind int) {
 	zzvBound("protobuf rebuild", "source sketch built by the real code on the given store kind: 0-2 positive / 0-1 negative bins at distinct indexes (symbolic base, enumerated for the paginated store), every positive finite float64 weight and zero weight (all bit patterns), the three mapping kinds; rebuilt by FromProtoWithStoreProvider into the given kind")
-	s, gp, gn := zzC09Source(srcKind, zzvChoose("mapping", 3))
+	s, gp, gn := zzC09Source(srcKind, dstKind, zzvChoose("mapping", 3))
 	zzvCover("built")
 	msg := s.ToProto()
 	dst, err := FromProtoWithStoreProvider(msg, zzProvider(dstKind))
@@ -95,20 +99,22 @@ func ZZ_C09_rebuild_lowest_sparse() { zzC09Rebuild(3, 0) }
 
 // (b) a hand-built message giving bins both sparsely and contiguously: they add up
 func ZZ_C09_mixed_message_adds_up() {
-	zzvBound("mixed message", "BinCounts with 2 entries and ContiguousBinCounts of length 3 at a symbolic offset, the sparse keys possibly inside the contiguous range; arbitrary positive weights; target kinds sparse / dense / paginated")
+	zzvBound("mixed message", "BinCounts with 2 entries and ContiguousBinCounts of length 3 at a symbolic offset, the sparse keys possibly inside the contiguous range; arbitrary positive float64 weights (grid weights incl. unit for the paginated target); target kinds sparse / dense / paginated")
 	zzvExactFloatsOnly()
 	zzvMapOrders(2)
 	dstKind := zzvChoose("dstKind", 3)
-	var off int
-	if dstKind == 2 {
-		off = []int{-33, 0, 30}[zzvChoose("offset", 3)]
-	} else {
-		off = zzvIntIn("offset", -8000, 8000)
-	}
+	// mathematical-integer offset: the int32 conversions of the message fields are then identities
+	// (their range is proven), and page arithmetic is linear integer arithmetic
+	off := zzvMInt("offset", -8000, 8000)
 	k1 := off + []int{-5, 0, 2}[zzvChoose("key1", 3)]
 	k2 := off + 40
 	w1, w2 := zzPosWeight("w1"), zzPosWeight("w2")
 	c := []float64{zzPosWeight("c0"), zzPosWeight("c1"), zzPosWeight("c2")}
+	if dstKind == 2 {
+		// paginated target: weights from a grid (unit weights take the buffer path)
+		w1, w2 = []float64{1, 2.5}[zzvChoose("w1", 2)], 1
+		c = []float64{1, 0.5, 3}
+	}
 	msg := &sketchpb.Store{BinCounts: map[int32]float64{int32(k1): w1, int32(k2): w2}, ContiguousBinCounts: c, ContiguousBinIndexOffset: int32(off)}
 	st := zzProvider(dstKind)()
 	zzvCover("message")
@@ -364,7 +370,7 @@ func zzPBStoreEqualsMessage(p zzPBStore, msg *sketchpb.Store) bool {
 
 func zzC09Stream(srcKind int) {
 	zzvBound("streaming writer", "source sketches as for the rebuild harness; the bytes written by EncodeProto (generated builders + protowire, executed from their real code) are parsed by a reference protobuf wire parser (accepting packed and unpacked repeated doubles) and compared field by field, bit for bit, with the message ToProto builds")
-	s, _, _ := zzC09Source(srcKind, zzvChoose("mapping", 3))
+	s, _, _ := zzC09Source(srcKind, srcKind, zzvChoose("mapping", 3))
 	zzvCover("built")
 	sink := &zzSink{}
 	s.EncodeProto(sink)
